@@ -10,6 +10,8 @@ import (
 	"encoding/hex"
 	"bytes"
 	"fmt"
+	"go/ast"
+	"go/doc"
 	"io"
 	"log"
 	"os"
@@ -69,7 +71,38 @@ func fnDump(f *parse.Function) J {
 	for _, a := range f.Args {
 		args = append(args, []string{a.Name, a.Type})
 	}
-	return J{"t": f.TargetName(), "id": f.ID(), "pkg": f.Package, "err": f.IsError, "ctx": f.IsContext, "args": args}
+	return J{"t": f.TargetName(), "id": f.ID(), "pkg": f.Package, "err": f.IsError, "ctx": f.IsContext, "args": args, "syn": f.Synopsis, "comment": f.Comment}
+}
+
+// docMaps records the two standard-library functions under the doc strings of a project: ast.CommentGroup.Text of the
+// comment as RenderFile writes it ("// " before every line) and go/doc.Synopsis of that text.
+func docMaps(p *proj.Project) (J, J) {
+	text, syn := J{}, J{}
+	add := func(d string) {
+		if d == "" {
+			return
+		}
+		cg := &ast.CommentGroup{}
+		for _, l := range strings.Split(d, "\n") {
+			cg.List = append(cg.List, &ast.Comment{Text: "// " + l})
+		}
+		t := cg.Text()
+		text[d] = t
+		syn[t] = doc.Synopsis(t)
+	}
+	pk := func(k proj.Pkg) {
+		for _, f := range k.Files {
+			add(f.PkgDoc)
+			for _, d := range f.Funcs {
+				add(d.Doc)
+			}
+		}
+	}
+	pk(p.Main)
+	for _, im := range p.World {
+		pk(im.Pkg)
+	}
+	return text, syn
 }
 
 // fnFull is everything the generated-main template can see of a function.
@@ -153,7 +186,7 @@ func infoDump(info *parse.PkgInfo) J {
 	for _, k := range keys {
 		al = append(al, []string{k, info.Aliases[k].TargetName()})
 	}
-	return J{"funcs": funcs, "imports": imps, "default": dflt, "aliases": al}
+	return J{"funcs": funcs, "imports": imps, "default": dflt, "aliases": al, "description": info.Description}
 }
 
 var listKeyRx = regexp.MustCompile(`(?m)^\t\t\t"([^"]+)": `)
@@ -242,7 +275,8 @@ func feparse(c *Ctx) {
 				tags = append(tags, "has-imports")
 			}
 		}
-		in := J{"op": "fe.info", "project": p, "fields": commentFields(p)}
+		dt, sy := docMaps(p)
+		in := J{"op": "fe.info", "project": p, "fields": commentFields(p), "docText": dt, "syn": sy}
 		c.Emit(in, impl, tags...)
 		os.RemoveAll(dir)
 	}
